@@ -799,7 +799,7 @@ func playFile(events []fileEvent, m *module, lists [][]any) (string, bool) {
 }
 
 func TestFileDatasource(t *testing.T) {
-	hx.Check(t, hx.N{Quick: 60, Thorough: 180}, func(t *rapid.T, c *hx.Case) {
+	hx.Check(t, hx.N{Quick: 20, Thorough: 40}, func(t *rapid.T, c *hx.Case) {
 		hx.Install()
 		util.SetClock(util.NewRealClock()) // the watcher loop sleeps and retries on the library clock
 		defer util.SetClock(hx.C)
@@ -821,9 +821,11 @@ func TestFileDatasource(t *testing.T) {
 		for attempt := 0; attempt < 3; attempt++ {
 			var infra bool
 			msg, infra = playFile(events, m, lists)
-			if infra {
+			if infra { // e.g. the per-user inotify instance limit: not a verdict about the library
 				fmt.Println("INCONCLUSIVE: C18 file datasource:", msg)
-				t.Skip("infrastructure: " + msg)
+				c.Count("inconclusive_infrastructure", 1)
+				clearAll()
+				return
 			}
 			if msg == "" {
 				break
